@@ -350,3 +350,79 @@ func VH_C08_site_strand() {
 	vObserve("head", rev.Head())
 	vObserve("tail", rev.Tail())
 }
+
+//verif:harness prop=C08 quick=4 thorough=8 merge=concrete timeout=1500 steps=300000000
+//verif:bounds the law as stated, on residues: sequence of 6 (quick) / 7 (thorough) residues (symbolic over {a,c,g,t} on the forward strand, concrete when complemented: the complement table forks per symbolic byte); region = one segment of every position and length, or two segments of length 1..2 at every position (any order, overlap allowed), forward or complemented; every modifier form with offsets such that the result stays inside the region (incl. empty results at either end): Locate(region.Resize(M)) equals the slice [lo,hi) of Locate(region)
+func VH_C08_extract_law() {
+	sh := vShard(4 + 4*vTier())
+	L := 6 + sh/4
+	data := vACGT("r", L)
+	if sh%2 == 1 {
+		data = []byte("acgtgca")[:L]
+	}
+	seq := New(nil, nil, data)
+	maxl := L
+	if sh%4 >= 2 {
+		maxl = 2
+	}
+	seg := func(name string) Segment {
+		h := vChoice(name+".h", L)
+		l := 1 + vChoice(name+".l", vMinC(maxl, L-h))
+		return Segment{h, h + l}
+	}
+	var R Region
+	if sh%4 < 2 {
+		R = seg("s0")
+	} else {
+		R = Regions{seg("s0"), seg("s1")}
+	}
+	if sh%2 == 1 {
+		R = R.Complement()
+	}
+	n := R.Len()
+	form := vChoice("form", 5)
+	p := vChoice("p", n+1)
+	q := 0
+	if form >= 2 {
+		q = vChoice("q", n+1)
+	}
+	var mod Modifier
+	lo, hi := 0, 0
+	switch form {
+	case 0:
+		mod, lo, hi = Head(p), p, p
+	case 1:
+		mod, lo, hi = Tail(-p), n-p, n-p
+	case 2:
+		mod, lo, hi = HeadTail{p, -q}, p, n-q
+	case 3:
+		mod, lo, hi = HeadHead{p, q}, p, q
+	default:
+		mod, lo, hi = TailTail{-p, -q}, n-p, n-q
+	}
+	if hi < lo {
+		hi = lo
+	}
+	whole := R.Locate(seq).Bytes()
+	vAssert("whole-length", len(whole) == n)
+	var part []byte
+	if vPanics(func() { part = R.Resize(mod).Locate(seq).Bytes() }) {
+		vAssert("no-panic", false)
+		return
+	}
+	vCover("extracted")
+	vAssert("resized-length", len(part) == hi-lo)
+	if len(part) == hi-lo && len(whole) == n {
+		for k := range part {
+			vAssert("resized-equals-slice-of-whole", part[k] == whole[lo+k])
+		}
+	}
+	vObserve("len", len(part))
+}
+
+func vMinC(a, b int) int {
+	if a < b {
+		return a
+	}
+	return b
+}
